@@ -6,7 +6,7 @@ class C27(Spec):
     drv = "drv_c27"
     harness = "h_c27"
     lean_deps = ("C25", "C20")
-    required_theorems = ("C27.best_chain_only_executed", "C27.reject_tip_extension_noop", "C27.reject_orphan_placement_noop",
+    required_theorems = ("C27.best_chain_only_executed", "C27.best_chain_linked", "C27.reject_tip_extension_noop", "C27.reject_orphan_placement_noop",
                          "C27.reject_processed_orphan_noop", "C27.reject_side_placement_noop", "C27.reject_no_fork_noop",
                          "C27.no_fork_regression_old_connectBestChain", "C27.reject_noop_full_false",
                          "C27.no_poisoning_full_false", "C27.no_poisoning_partial",
@@ -36,6 +36,10 @@ class C27(Spec):
                   "(errReturn=false), transaction groups, restart, cache limits, the dangling parent pointer after "
                   "index.DelNode and fault-peer bookkeeping are outside the model; finalised height 0 in the tie.")
     assumptions = (
+        "ProcessBlock calls are SERIALISED: the model is sequential, while the node dispatches EventSyncBlock / "
+        "EventBroadcastAddBlock / EventAddBlockDetail with `go chain.processMsg` and the first half of ProcessBlock "
+        "(blockExists, IsKnownOrphan, AddOrphanBlock) runs outside chainLock; the tie delivers one block at a time",
+        "header law for best_chain_linked: Block.Hash covers parent hash and height; no block hash equals genesis' parent hash",
         "PreExecBlock's checks are modelled as an ordered list of oracle inputs (Model/C27.lean preExec); the oracle inputs "
         "of every generated case are recomputed from the real transactions/blocks by the harness",
         "index cache (102400), orphan pool limit/expiry not reached; EnableBestBlockCmp off; restart modelled for chains "
